@@ -283,7 +283,32 @@ func concurrentWriters(r *hv.Rand) {
 		if len(got) != len(want) && sig == "" {
 			sig, what = "C03:returned-message-not-written-by-peer-or-returned-twice", "peer read a message nobody wrote"
 		}
-		hv.Emit(hv.Case{Class: "concurrent-writers", Desc: fmt.Sprintf("#%d %d writers x %d messages, %d datagrams, %d write errors", k, G, K, len(em), nerr),
+		// correspondence with the interleaving model (coq/Model/SendConc.v, checker c03cw_ok): the calls of all
+		// goroutines, and the order in which their datagrams reached the wire (the message identifies the call)
+		fn, coq := "", ""
+		if nerr == 0 && len(em) == G*K {
+			calls := make([]string, G*K)
+			for m := range want {
+				calls[int(m[0])*K+int(m[1])] = hv.Tuple("16", hx([]byte(m)))
+			}
+			var order []uint64
+			var pk []string
+			okc := true
+			for _, e := range em {
+				m, ok := openDirect(p.spec.wk, e.pkt[:16], e.pkt[16:])
+				if !ok || len(m) < 2 {
+					okc = false
+					break
+				}
+				order = append(order, uint64(int(m[0])*K+int(m[1])))
+				pk = append(pk, hv.Tuple(hx(e.pkt[:16]), hv.Ni(len(e.pkt)), hv.N(addrID(e.dst))))
+			}
+			if okc {
+				fn = "c03cw_ok"
+				coq = hv.Tuple(p.spec.coq(), hv.List(calls), hv.Ns(order), hv.Tuple(hv.List(pk), u64(p.h.VerifState().Count)))
+			}
+		}
+		hv.Emit(hv.Case{Fn: fn, Coq: coq, Class: "concurrent-writers", Desc: fmt.Sprintf("#%d %d writers x %d messages, %d datagrams, %d write errors", k, G, K, len(em), nerr),
 			Spec: sig == "", Sig: sig, What: what, NT: true})
 	}
 }
